@@ -19,6 +19,9 @@ pub enum Snippet {
     Code(Vec<Stmt>, &'static str),
     Bad(&'static str),
     Reset,
+    /// host action between two snippets: the loader starts to serve this module (it was missing, or
+    /// its text did not compile), as when a user creates or repairs the file while the REPL is open
+    Provide(&'static str),
 }
 
 const BAD: &[&str] = &["var = 3;", "fn f( { }", "print(1;", "class { }", "\"unterminated", "var ok_before = 1; print(ok_before; var never = 2;", "}", "return 1;"];
@@ -64,6 +67,28 @@ fn parse_free_modules() -> Vec<(String, ModuleSrc)> {
     let _ = render(&ma);
     let _ = render(&mb);
     vec![("ma".to_string(), ModuleSrc::Ast(ma)), ("mb".to_string(), ModuleSrc::Ast(mb))]
+}
+
+/// Modules the loader does not serve correctly at first: "mc" is missing, "md" does not compile.
+const LATE: [&str; 2] = ["mc", "md"];
+
+fn late_module(name: &str) -> Vec<Stmt> {
+    let body = vec![
+        Stmt::print(Expr::str(&format!("load {}", name))),
+        Stmt::var("tag", Some(Expr::str(name))),
+        Stmt::var("count", Some(Expr::Num(0.0))),
+        Stmt::new(StmtKind::Fn(Rc::new(FnDef {
+            name: std::cell::RefCell::new("bump".to_string()),
+            params: vec![],
+            body: Body::Block(vec![
+                Stmt::expr(Expr::assign_var("count", Expr::bin(BinOp::Add, Expr::var("count"), Expr::Num(1.0)))),
+                Stmt::new(StmtKind::Return(Some(Expr::var("count")))),
+            ]),
+            kind: FnKind::Function,
+        }))),
+    ];
+    let _ = render(&body);
+    body
 }
 
 pub fn history(bytes: &[u8]) -> (Vec<Snippet>, Vec<&'static str>) {
@@ -469,6 +494,36 @@ pub fn history(bytes: &[u8]) -> (Vec<Snippet>, Vec<&'static str>) {
                 v.push(Snippet::Code(s, if failed_before { "probe_after_failure" } else { "probe" }));
                 labels.push(if failed_before { "probe_after_failure" } else { "probe" });
             }
+            14 | 15 => {
+                // a module that is missing (mc) or does not compile (md) when first imported: the
+                // failed import must leave nothing behind, so that the same statement succeeds once
+                // the host serves a good text; imported again later it is the same loaded module
+                let m = g.rd.pick_str(&LATE);
+                let guarded = g.rd.chance(1, 3);
+                let import = Stmt::new(StmtKind::Import(m.to_string(), None));
+                let uses = vec![Stmt::print(Expr::get(Expr::var(m), "tag")), Stmt::print(Expr::invoke(Expr::var(m), "bump", vec![]))];
+                let s = if guarded {
+                    let mut body = vec![import];
+                    body.extend(uses);
+                    vec![Stmt::new(StmtKind::Try(body, Some(("le".into(), vec![Stmt::print(Expr::callv("type", vec![Expr::var("le")]))])), None))]
+                } else {
+                    let mut body = vec![import];
+                    body.extend(uses);
+                    body
+                };
+                v.push(Snippet::Code(s, "import_late"));
+                labels.push("import_late");
+                if g.rd.chance(1, 2) {
+                    v.push(Snippet::Provide(m));
+                    labels.push("provide_module");
+                    let again = vec![
+                        Stmt::new(StmtKind::Import(m.to_string(), None)),
+                        Stmt::print(Expr::get(Expr::var(m), "tag")),
+                        Stmt::print(Expr::invoke(Expr::var(m), "bump", vec![])),
+                    ];
+                    v.push(Snippet::Code(again, "import_late"));
+                }
+            }
             _ => {
                 let k = 1 + g.rd.below(4);
                 let s = g.stmts(k);
@@ -492,6 +547,7 @@ fn render_history(h: &[Snippet]) -> String {
             }
             Snippet::Bad(t) => s.push_str(&format!("{}\n", t)),
             Snippet::Reset => s.push_str("<reset()>\n"),
+            Snippet::Provide(m) => s.push_str(&format!("<host: the loader now serves a good text for module {}>\n", m)),
         }
     }
     s
@@ -510,7 +566,7 @@ impl Property for C15 {
     }
 
     fn rule(&self) -> String {
-        "cases: histories of 2-12 snippets fed to one interpreter through vm::interpret (as the REPL does): generated code that defines and uses globals, functions and classes across snippets; snippets that do not compile; snippets that complete some definitions and then end in an uncaught error (top-level throw, throw from nested calls, inside a fiber, inside try/finally, during a class definition, in a constructor, a missing import, a built-in error); imports of two modules (one importing the other) that must persist; probes with try/finally, try/catch/finally and a fiber; and reset(). Oracle: the reference interpreter fed the same history piecewise (a brand-new reference interpreter after reset), compared per snippet: printed values, outcome, error kind, report and trace; a panic in any snippet is a violation. Non-trivial: a failing snippet is followed by a probe or by code using earlier definitions; distinct by the rendered history.".into()
+        "cases: histories of 2-12 snippets fed to one interpreter through vm::interpret (as the REPL does): generated code that defines and uses globals, functions and classes across snippets; snippets that do not compile; snippets that complete some definitions and then end in an uncaught error (top-level throw, throw from nested calls, inside a fiber, inside try/finally, during a class definition, in a constructor, a missing import, a built-in error); imports of two modules (one importing the other) that must persist; imports of a module that is missing and of one that does not compile, guarded and unguarded, followed — as a host action between snippets — by the loader starting to serve a good text, after which the same import must load it (once) and later imports find it loaded; probes with try/finally, try/catch/finally and a fiber; and reset(). Oracle: the reference interpreter fed the same history piecewise (a brand-new reference interpreter after reset), compared per snippet: printed values, outcome, error kind, report and trace; a panic in any snippet is a violation. Non-trivial: a failing snippet is followed by a probe or by code using earlier definitions; distinct by the rendered history.".into()
     }
 
     fn assumptions(&self) -> Vec<String> {
@@ -530,7 +586,8 @@ impl Property for C15 {
             ctx.label(&format!("gen:{}", l));
         }
         // the module texts are the rendered ASTs, so that lines agree
-        let mods_ast = parse_free_modules();
+        let mut mods_ast = parse_free_modules();
+        mods_ast.push(("md".to_string(), ModuleSrc::Bad("var = 3;\n".to_string())));
         let mods_text: Vec<(String, String)> = mods_ast
             .iter()
             .map(|(p, m)| match m {
@@ -561,6 +618,15 @@ impl Property for C15 {
                     sh = a;
                     rctx = b;
                     rmain = c;
+                }
+                Snippet::Provide(m) => {
+                    rendered.push_str(&format!("--- after snippet {}: the loader now serves a good text for module {}\n", i, m));
+                    let body = late_module(m);
+                    yrun::set_module(m, Some(render(&body)));
+                    sh.sources.borrow_mut().insert(m.to_string(), ModuleSrc::Ast(body.clone()));
+                    // what the host serves outlives a reset of the interpreter
+                    mods_ast.retain(|(p, _)| p != m);
+                    mods_ast.push((m.to_string(), ModuleSrc::Ast(body)));
                 }
                 Snippet::Bad(text) => {
                     rendered.push_str(&format!("--- snippet {} (does not compile)\n{}\n", i + 1, text));
@@ -631,7 +697,7 @@ impl Property for C15 {
                     }
                     if matches!(rend, RefEnd::Err(_)) {
                         failure_seen = true;
-                    } else if failure_seen && (*tag == "probe_after_failure" || *tag == "code" || *tag == "import") {
+                    } else if failure_seen && (*tag == "probe_after_failure" || *tag == "code" || *tag == "import" || *tag == "import_late") {
                         nontrivial = true;
                     }
                 }
@@ -669,7 +735,7 @@ impl Property for C15 {
             ("gen:throw_in_fiber", 300),
             ("gen:throw_in_try_finally", 300),
             ("gen:probe_after_failure", 1_000),
-            ("gen:import", 2_000),
+            ("gen:import", 2_000), ("gen:import_late", 2_000), ("gen:provide_module", 1_000),
         ]
     }
 }
